@@ -15,7 +15,7 @@ import (
 	"github.com/irismod/service/types"
 )
 
-const nScripts = 43
+const nScripts = 44
 
 func runScript(a *App, mon *Mon, seed int64, v int) {
 	p := baseParams()
@@ -655,6 +655,22 @@ func runScript(a *App, mon *Mon, seed int64, v int) {
 		_ = id
 		s.r.Msg(types.NewMsgRefundServiceDeposit("svc", p3, o2), "long after the deadline")
 		blocks(3)
+	case 43:
+		// a context that has issued more batches than the new chain has blocks: after a
+		// zero-height restart at height 1 its batch counter carries over, its requests are
+		// answered inside their window as before
+		id := s.call("svc", all, cons, 100, 1, false, true, 1, 12)
+		for b := 0; b < 7; b++ {
+			s.block()
+			answer(id, p1, p2)
+		}
+		s.r.restartFull(false, true)
+		s.ctl("start", id, cons)
+		for b := 0; b < 4; b++ {
+			s.block()
+			answer(id, p1, p2, p3)
+		}
+		blocks(2)
 	}
 	s.done()
 }
